@@ -20,7 +20,8 @@ METHODS = [g for g in _sat.ALL] + ["eq_" + g for g in _sat.ALL]
 def FLOORS(tier):
     q = tier == "quick"
     f = {"expression-operand": 600 if q else 20000, "is_solution_valid-checks": 20000 if q else 10 ** 6,
-         "second-constraint-on-model": 300, "shared-operand-object": 400}
+         "second-constraint-on-model": 300, "shared-operand-object": 400, "lam-positional": 100,
+         "between-gates:trivial-le": 30, "between-gates:round(-1)": 30, "between-gates:copy": 30}
     for m in METHODS:
         f["method:" + m] = 60 if q else 2000
         g = m.replace("eq_", "")
@@ -74,7 +75,13 @@ def case(ctx, rng, idx):
         before = ref.from_raw("bool", dict(H))
         valid_before = H.copy()
         args = ([a[0]] if eq else []) + [o[0] for o in ops]
-        ok, ret = ctx.call("add_constraint_" + m, getattr(H, "add_constraint_" + m), *args, lam=lam, _w=w)
+        if g in ("NOT", "BUFFER") and rng.random() < 0.4:
+            # the four fixed-arity methods are documented as (a, [b,] lam=1): the weight may be given positionally
+            ctx.cat("lam-positional")
+            desc.append("lam-positional")
+            ok, ret = ctx.call("add_constraint_" + m, getattr(H, "add_constraint_" + m), *args, lam, _w=w)
+        else:
+            ok, ret = ctx.call("add_constraint_" + m, getattr(H, "add_constraint_" + m), *args, lam=lam, _w=w)
         if not ok:
             return
         for o, sn in zip(pool, pool_snap):
@@ -117,6 +124,43 @@ def case(ctx, rng, idx):
                 return
         if holds.any() and not holds.all():
             nontriv = True
+        # ---- something else happens to the model between two gates; what is valid stays what it was ----------------
+        if rng.random() < 0.3:
+            how = rng.choice(["trivial-le", "trivial-ge", "round(-1)", "round(0)", "round(2)", "copy"])
+            cons0 = {k: len(v) for k, v in H.constraints.items()}
+            Hb = H.copy()
+            import warnings
+            with warnings.catch_warnings():
+                warnings.simplefilter("ignore")
+                if how == "trivial-le":
+                    # P <= 0 for every assignment (decided by its bounds): nothing to enforce, nothing to forget
+                    okb, _ = ctx.call("add_constraint_le_zero", H.add_constraint_le_zero, {(rng.choice(labs),): 1, (): -rng.choice([1, 3])}, lam=lam, _w=w)
+                elif how == "trivial-ge":
+                    okb, _ = ctx.call("add_constraint_ge_zero", H.add_constraint_ge_zero, {(rng.choice(labs),): -1, (): rng.choice([1, 3])}, lam=lam, _w=w)
+                elif how == "copy":
+                    okb, H2 = ctx.call("copy", H.copy, _w=w)
+                    H = H2 if okb else H
+                else:
+                    nd = int(how[6:-1])
+                    okb, H2 = ctx.call("round", round, H, nd, _w=w)
+                    H = H2 if okb else H
+            if not okb:
+                return
+            hist.append([how])
+            ctx.cat("between-gates:" + how)
+            cons1 = {k: len(v) for k, v in H.constraints.items()}
+            if any(cons1.get(k, 0) < n_ for k, n_ in cons0.items()):
+                ctx.violation("%s:recorded-constraint-lost" % how, "recorded constraints per kind %r -> %r" % (cons0, cons1), {"history": hist})
+                return
+            if how.startswith("round") and {k: [dict(p) for p in v] for k, v in H.constraints.items()} != {k: [dict(p) for p in v] for k, v in Hb.constraints.items()}:
+                ctx.violation("%s:recorded-constraints-changed" % how, "rounding the model changed the recorded constraints", {"history": hist})
+                return
+            for i in range(1 << len(labs)):
+                x = ref.assignment(i, labs, False)
+                if bool(H.is_solution_valid(x)) != bool(Hb.is_solution_valid(x)):
+                    ctx.violation("%s:is_solution_valid-changed" % how, "is_solution_valid(%r) was %r, is now %r" % (x, bool(Hb.is_solution_valid(x)), bool(H.is_solution_valid(x))), {"history": hist})
+                    return
+            ctx.count("is_solution_valid-checks", 1 << len(labs))
     if nontriv:
         ctx.nontrivial(hist)
     ctx.sample({"history": hist}, limit=3)
